@@ -190,6 +190,10 @@ impl FileSystem for OverlayFS {
     fn remove_dir(&self, path: &str) -> VfsResult<()> {
         // Ensure path exists
         self.read_path(path)?;
+        // and that no layer still shows an entry inside it
+        if self.read_dir(path)?.next().is_some() {
+            return Err(VfsErrorKind::Other("Directory to remove is not empty".into()).into());
+        }
         let write_path = self.write_path(path)?;
         if write_path.exists()? {
             write_path.remove_dir()?;
